@@ -118,7 +118,11 @@ var clk struct {
 	total int64 // reads since installClock
 }
 
-func init() { clk.high = 1_600_000_000_000_000_000 }
+// The seam's epoch starts in 2001 (19 decimal digits like today's) and only moves forward; it must stay below the real
+// clock, which is always the LAST clock a long-lived generator sees (a clock stepping back is outside the domain).
+var realStart = time.Now().UnixNano()
+
+func init() { clk.high = 1_000_000_000_000_000_000 }
 
 func seamNow() time.Time {
 	v := clk.base
@@ -150,6 +154,9 @@ func installClock(m clockMode, alignSecond bool) {
 	b := clk.high + 1_000_000
 	if alignSecond {
 		b = (b/1_000_000_000 + 1) * 1_000_000_000
+	}
+	if b > realStart-86_400_000_000_000 {
+		panic("harness bug: the seam clock has caught up with the real clock")
 	}
 	clk.base, clk.calls, clk.last, clk.high = b, 0, b, b
 	shared.VerifSetNow(seamNow)
@@ -454,30 +461,30 @@ func (s *session) verify(ctx *seq.Ctx, ids *idLog) (string, string) {
 			ctx.Groups["cover:single-record-chunk-at-or-over-limit"]++
 		}
 		if f.kind == "ff" {
-			ctx.Groups["cover:records-per-chunk-"+countClass(count)]++
+			ctx.Groups[countClass(count)]++
 		}
 		next += count
 	}
 	if next != len(records) {
 		return "lost-records", fmt.Sprintf("%s%d records written, the chunks hold only the first %d (after the final FlushBuffer)", s.who, len(records), next)
 	}
-	ctx.Groups[fmt.Sprintf("cover:%d-chunks", min(len(s.chunks), 6))]++
+	ctx.Groups[chunkCountKeys[min(len(s.chunks), 6)]]++
 	return "", ""
 }
 
-// countClass names the MessagePack width class of a record count (array header / option.size integer)
+// countClass names (as a coverage counter) the MessagePack width class of a record count (array header / option.size integer)
 func countClass(n int) string {
 	switch {
 	case n <= 15:
-		return "1..15(fixarray,fixint)"
+		return "cover:records-per-chunk-1..15(fixarray,fixint)"
 	case n <= 127:
-		return "16..127(array16,fixint)"
+		return "cover:records-per-chunk-16..127(array16,fixint)"
 	case n <= 255:
-		return "128..255(array16,uint8)"
+		return "cover:records-per-chunk-128..255(array16,uint8)"
 	case n <= 65535:
-		return "256..65535(array16,uint16)"
+		return "cover:records-per-chunk-256..65535(array16,uint16)"
 	}
-	return "65536+(array32,uint32)"
+	return "cover:records-per-chunk-65536+(array32,uint32)"
 }
 
 // run drives the family's chunk maker: write sizes[i], flush after write i where flushAfter(i). Returns a violation or "".
@@ -603,6 +610,8 @@ func runInterleaved(ctx *seq.Ctx, fams []*family, steps []ilStep, clock clockMod
 	}
 	return "", ""
 }
+
+var chunkCountKeys = [7]string{"cover:0-chunks", "cover:1-chunks", "cover:2-chunks", "cover:3-chunks", "cover:4-chunks", "cover:5-chunks", "cover:6-chunks"}
 
 func min(a, b int) int {
 	if a < b {
@@ -863,7 +872,12 @@ func sizesString(sizes []int, mask uint) string {
 // forEachSequence enumerates all sequences over menu of length 1..maxLen with all flush masks, in a fixed order.
 // It returns false if fn asked to stop.
 func forEachSequence(menu []int, maxLen int, fn func(sizes []int, mask uint) bool) bool {
-	for n := 1; n <= maxLen; n++ {
+	return forEachSequenceFrom(menu, 1, maxLen, fn)
+}
+
+// forEachSequenceFrom: lengths minLen..maxLen only
+func forEachSequenceFrom(menu []int, minLen, maxLen int, fn func(sizes []int, mask uint) bool) bool {
+	for n := minLen; n <= maxLen; n++ {
 		idx := make([]int, n)
 		sizes := make([]int, n)
 		for {
@@ -972,43 +986,34 @@ func enumerate(ctx *seq.Ctx) {
 	// The small groups, each the ONLY coverage of something (real sizes, gzip at size, Datadog accounting, width classes of
 	// counts, restart, several makers), come first; the big scaled product comes last: a deadline cut can then only shorten
 	// the product.
-	enumProduction(ctx, thorough, clocksAll)
-	enumDatadog(ctx, thorough, clocksAll)
+	enumProduction(ctx, 1, 2, clocksAll)
+	enumDatadog(ctx, 1, 2, clocksAll)
 	enumTags(ctx, clocksAll)
 	enumRecordCount(ctx, thorough, clocksAll)
 	enumRestart(ctx, thorough, clocksAll)
 	enumInterleaved(ctx, thorough, clocksAll)
 	enumIndependence(ctx, clocksAll)
 	enumScaledProduct(ctx, thorough, clocksAll)
+	if thorough {
+		// the deepening of the two real-size groups (three records of up to 7 / 10 MiB per case) is by far the dearest part per case
+		enumProduction(ctx, 3, 3, clocksAll)
+		enumDatadog(ctx, 3, 3, clocksAll)
+	}
 }
 
 func maskFn(mask uint) func(int) bool { return func(i int) bool { return mask&(1<<uint(i)) != 0 } }
 
 // ---- Forward modes with the limits the package ships with; the oracle uses the documented values pinned in the harness
-func enumProduction(ctx *seq.Ctx, thorough bool, clocksAll []clockMode) {
+func enumProduction(ctx *seq.Ctx, minLen, maxLen int, clocksAll []clockMode) {
 	ctx.Group("forward/production-limits")
-	ctx.Case("prod/limit-values", true, "prod/limit-values", func() (string, string) {
-		// observation of the code under test, compared with the pinned documentation (not used as the oracle of anything)
-		rec, size := fluentdforward.VerifSetChunkLimits(1, 1)
-		fluentdforward.VerifSetChunkLimits(rec, size)
-		if size <= 0 || size > ffProdMaxSize {
-			return "limit:production-size-above-documented", fmt.Sprintf("fluentdforward chunkMaxSizeBytes = %d (0 = unlimited); documented: max uncompressed data size of a chunk %d (7 MiB), which must stay well below Fluentd's DEFAULT_CHUNK_LIMIT_SIZE of %d (8 MiB)", size, ffProdMaxSize, fluentdChunkLimit)
-		}
-		if size < ffProdMaxSize || rec != ffProdMaxRecords {
-			// stricter than documented: chunks are closed earlier than necessary, which the statement allows
-			ctx.Groups["cover:production-limits-stricter-than-documented(accepted)"]++
-		}
-		return "", ""
-	})
+	if minLen == 1 {
+		enumProductionValues(ctx)
+	}
 	const P = ffProdMaxSize
 	prodSizes := []int{12, 1<<20 + 1, P / 2, P - 1, P, P + 1}
-	prodLen := 2
-	if thorough {
-		prodLen = 3
-	}
 	for _, mode := range modes {
 		fam := &family{kind: "ff", mode: mode, prod: true, tag: tag}
-		forEachSequence(prodSizes, prodLen, func(sizes []int, mask uint) bool {
+		ok := forEachSequenceFrom(prodSizes, minLen, maxLen, func(sizes []int, mask uint) bool {
 			if ctx.Stop() {
 				return false
 			}
@@ -1023,20 +1028,36 @@ func enumProduction(ctx *seq.Ctx, thorough bool, clocksAll []clockMode) {
 			})
 			return true
 		})
+		if !ok {
+			return
+		}
 	}
 }
 
+// one case comparing the limits the package ships with against the documented values pinned in the harness
+func enumProductionValues(ctx *seq.Ctx) {
+	ctx.Case("prod/limit-values", true, "prod/limit-values", func() (string, string) {
+		// observation of the code under test, compared with the pinned documentation (not used as the oracle of anything)
+		rec, size := fluentdforward.VerifSetChunkLimits(1, 1)
+		fluentdforward.VerifSetChunkLimits(rec, size)
+		if size <= 0 || size > ffProdMaxSize {
+			return "limit:production-size-above-documented", fmt.Sprintf("fluentdforward chunkMaxSizeBytes = %d (0 = unlimited); documented: max uncompressed data size of a chunk %d (7 MiB), which must stay well below Fluentd's DEFAULT_CHUNK_LIMIT_SIZE of %d (8 MiB)", size, ffProdMaxSize, fluentdChunkLimit)
+		}
+		if size < ffProdMaxSize || rec != ffProdMaxRecords {
+			// stricter than documented: chunks are closed earlier than necessary, which the statement allows
+			ctx.Groups["cover:production-limits-stricter-than-documented(accepted)"]++
+		}
+		return "", ""
+	})
+}
+
 // ---- Datadog: limits are constants (5 MiB uncompressed, 1000 records)
-func enumDatadog(ctx *seq.Ctx, thorough bool, clocksAll []clockMode) {
+func enumDatadog(ctx *seq.Ctx, minLen, maxLen int, clocksAll []clockMode) {
 	dd := &family{kind: "dd", tag: "ddtag"}
 	const M = ddMaxSize
 	ddSizes := []int{22, M/2 - 2, M/2 - 1, M - 3, M - 2, M - 1, M + 1, 2 * M}
-	ddLen := 2
-	if thorough {
-		ddLen = 3
-	}
 	ctx.Group("datadog/size-limit")
-	forEachSequence(ddSizes, ddLen, func(sizes []int, mask uint) bool {
+	ok := forEachSequenceFrom(ddSizes, minLen, maxLen, func(sizes []int, mask uint) bool {
 		if ctx.Stop() {
 			return false
 		}
@@ -1051,6 +1072,9 @@ func enumDatadog(ctx *seq.Ctx, thorough bool, clocksAll []clockMode) {
 		})
 		return true
 	})
+	if !ok || minLen > 1 {
+		return
+	}
 	// record limit: N tiny records with one optional flush position. The real clock comes last: the long-lived generator
 	// must not see the clock step back to the seam's epoch.
 	ctx.Group("datadog/record-limit")
@@ -1162,13 +1186,14 @@ func enumRestart(ctx *seq.Ctx, thorough bool, clocksAll []clockMode) {
 	}
 	for _, fam := range fams {
 		cheap := fam.kind == "ff" && fam.mode != forwardprotocol.ModeCompressedPackedForward
+		// what matters for IDs is how many chunks each generation makes and when; two sizes (one that fits, one that rolls over) do
 		two := []int{fam.small(), fam.big()}
 		menuA, lenA := two, 2
 		if cheap {
-			menuA = ffSizes
-			if thorough {
-				lenA = 3
-			}
+			lenA = 3
+		}
+		if thorough {
+			lenA++
 		}
 		for _, clock := range clocksAll { // the real clock is last
 			gaps := seamGaps
@@ -1393,7 +1418,7 @@ func main() {
 			"runs depth 4 for limits (64,0) (64,2), 3 for the others, 2 for the other clocks (quick) / 5, other clocks 4 (thorough); tags of 1,31,32,255,256,65535,65536 bytes; " +
 			"the limits the package ships with (never touched; oracle = documented 7 MiB / no record limit pinned in the harness, plus one case comparing the shipped values with them) with sequences of 1..2 (quick) / 1..3 (thorough) sizes from {12, 1 MiB+1, 3.5 MiB, 7 MiB-1, 7 MiB, 7 MiB+1}; " +
 			"record COUNT per chunk: N x 12-byte records, N in {15,16,17,127,128,129,255,256,257,65535,65536,65537} (thorough also 31,32,33,4095,4096,131071,131072,600000) x 3 modes x {unlimited, production limits, record limit N-1, size limit 12(N-1)} x flush {none, after the first, before the last record}; " +
-			"restart: sequences A (1..2 sizes; Forward/PackedForward from the 6 sizes, thorough 1..3) x flushes, then a NEW chunk maker of the same configuration and tag, then sequences B (1..2 sizes from {small,big}) x flushes, x clock {frozen, +1ns, pairs} x first reading of the new generator {0, 1 ns, 1 us, 0.9 s (same second), 1 s (next second), 1 h} after the last reading of the old one, and the real clock restarted at once; families Forward(64,2) PackedForward(64,0) CompressedPackedForward(64,2) Datadog; " +
+			"restart: sequences A (1..3 sizes for Forward/PackedForward, 1..2 for the gzip kinds, thorough one more, from {small,big}) x flushes, then a NEW chunk maker of the same configuration and tag, then sequences B (1..2 sizes from {small,big}) x flushes, x clock {frozen, +1ns, pairs} x first reading of the new generator {0, 1 ns, 1 us, 0.9 s (same second), 1 s (next second), 1 h} after the last reading of the old one, and the real clock restarted at once; families Forward(64,2) PackedForward(64,0) CompressedPackedForward(64,2) Datadog; " +
 			"interleaving: 2 or 3 chunk makers alive at once (own tags; every unordered pair of {Forward, PackedForward, Compressed, Datadog} and the triples FFF PPP CCC DDD FPC FPD FCD PCD), every sequence of 1..5 (pairs) / 1..4 (triples) steps (one less with a gzip kind; thorough one more) over maker x {small record, big record, FlushBuffer}; " +
 			"Datadog chunk maker (constant limits 5 MiB / 1000 records): sequences of 1..2 (quick) / 1..3 (thorough) sizes from {22, M/2-2, M/2-1, M-3, M-2, M-1, M+1, 2M} x 2^n flush subsets, and 999/1000/1001/2000/2001 records of 22/100 bytes x 9 flush positions x clocks. " +
 			"Oracle per maker and run: each chunk decodes (msgpack token by token + fluentlib forwardprotocol.Message; stdlib gzip + encoding/json), tag, mode shape, option.size = records held, option.chunk = LogChunk.ID, ID accepted by MatchChunkID, usable as a file name and unique (across a restart too, where the new IDs also sort after the old ones), " +
